@@ -403,10 +403,27 @@ def run(ctx):
         ndep += dependence(ctx, prog, q)
         nseq = sequence_probes(ctx, prog, q)
         ctx.count('sequence_probes', nseq)
+    # R10: to_posit is the single posit-rule rounding of the accumulator's value, for every state: rounding cells (sign, leading-one position, rounding case)
+    import rules_rounding
+    ctx.rules.append('R10 rounding cells of the accumulator: (sign, leading-one position, rounding case[, lowest set bit for negative multi-limb states]); '
+                     'to_posit vector == correctly rounded encoding of the fixed-point value')
+    thorough = ctx.tier == 'thorough'
+    rc = rp = 0
+    for q in QTYS:
+        step = 1 if (thorough or q.nf == 1) else 4
+        st = rules_rounding.parallel_quire_to_posit(ctx, prog, 'R10', q, FRAC_BITS[q.name], thorough and q.nf == 1, p_step=step)
+        rc += st['cells']
+        rp += st['proved']
+        if step > 1:
+            ctx.notes.append('quick tier: %s::to_posit is checked for every %dth leading-one position; the thorough tier takes all' % (q.name, step))
+    ctx.notes.append('to_posit rounding cells: the sticky position (and, for negative Q16E1/Q32E2 states, the lowest set bit) is sampled (3-4 values per cell) except for Q8E0 in the thorough tier')
+    ctx.count('to_posit_rounding_cells', rc)
+    ctx.count('to_posit_rounding_cells_proved', rp)
     ctx.require('C04 predicate cells decided', npred, 500)
     ctx.require('C04 accumulate head cells decided', nacc, 300)
     ctx.require('C04 operand spellings', nsp, 48)
     ctx.count('dependence_sites', ndep)
-    ctx.undecided['general_path'] = 'exact placement of the product, carry propagation across limbs, single rounding in to_posit, order independence'
+    ctx.undecided['general_path'] = 'exact placement of the product and carry propagation across limbs in the accumulate (hence order independence): decided only on the probed sequences'
     return LEVEL, ('is_zero/is_nar are decided for every accumulator state (all limbs); to_posit returns 0/NaR exactly there; NaR stickiness and zero operands for every '
-                   'base spelling; all tuple/array spellings expand to the right products with the right sign; the accumulated value depends on flag, operands and accumulator.')
+                   'base spelling; all tuple/array spellings expand to the right products with the right sign; the accumulated value depends on flag, operands and accumulator; '
+                   'to_posit is proved to be the single posit-rule rounding of the fixed-point value of the state on rounding cells covering the accumulator states (sampling as noted).')
